@@ -45,7 +45,7 @@ func sameParams(a, b types.Params) bool {
 
 // sceneGenesis: zero-height preparation, export, validation, import into a fresh chain, export again.
 func sceneGenesis(o ReqOpts) {
-	o.Batch, o.AllBound, o.Earned, o.NoSlash, o.OneOutput = true, true, true, true, true
+	o.Batch, o.AllBound, o.Earned, o.NoSlash, o.OneOutput, o.ZeroDep = true, true, true, true, true, 1
 	s := NewReqScene(o)
 	k, ctx, id := s.K, s.Ctx, s.ID
 	hasWA := vf.Bool("hasWithdrawAddr")
